@@ -13,6 +13,15 @@ TRUST = ("Trusted base: go/packages loader, go/types, golang.org/x/tools/go/ssa 
 
 # id -> (technique, level text, design ref, extra note)
 CLAIMED = {
+    "C02": ("panic-site enumeration over the decode call-graph slice + forward must-dataflow of guard facts on SSA (access-path keys, callee success summaries, functional-option contexts)",
+            "Sound for the enumerated panic classes in gldap's own decode code for every BER tree ber.ReadPacket can return, modulo the listed library facts; the connection-level recover is not accepted as a guard. Library-internal resource exhaustion is not decided.",
+            "2/C02", ""),
+    "C03": ("CFG exactly-once counting, range-order and who-writes rules on (*Mux).serve; truth-table comparison of every match() predicate with a reference formula; table agreement for registration and refusal tags",
+            "Decides exactly-once, first-match order, predicate semantics of all six route kinds and the shape of the built-in refusal for all route tables and requests; handlers themselves are out of scope.",
+            "2/C03", ""),
+    "C07": ("goroutine census with deferred-recover dominance check, accept-loop retry path search, exit/containment scans over the connection call-graph slice",
+            "Decides that every goroutine gldap starts for handler or decode code is fenced by recover() exactly under !disablePanicRecovery and that transient accept errors loop; correctness of bystanders' answers is not decided.",
+            "2/C07", ""),
     "C05": ("SSA must-held lock-set + path-count typestate + who-calls/who-constructs scans",
             "Sound lock-discipline argument over all schedules: every access to the shared bufio.Writer is inside one critical section of the connection's single mutex that emits exactly one whole frame and flushes it; no schedule is executed.",
             "2/C05", ""),
@@ -37,12 +46,18 @@ CLAIMED = {
     "C13": ("control-dependence of the StartTLS dispatch site, value provenance in StartTLS/initConn, lock-set, socket-use discipline scan",
             "Decides that no LDAP read can interleave with the upgrade and that after it all I/O goes through the TLS reader/writer pair built from the handshaken connection; crypto/tls behaviour is trusted.",
             "2/C13", ""),
+    "C16": ("panic-site enumeration (engine E2) from the exported helper/constructor entries with caller-controlled parameters; sibling layout comparison for SID; order-taint and paired-write scans",
+            "Decides panic freedom (enumerated classes) for all argument values and option subsets, deterministic attribute order and paired string/byte values; the value-level inverse clauses are not decided.",
+            "2/C16", ""),
     "C17": ("control-dependence of flag stores on net.Listen's error + who-writes + lock-set",
             "Decides the only-if-bound direction for every address and schedule; kernel accept behaviour is not decided.",
             "2/C17", ""),
     "C18": ("listener provenance through functional-option summaries, socket-use discipline, constant/provenance checks on the test directory's tls.Config",
             "Decides that on a TLS port the only byte source of a handler is a tls.Conn created from exactly the configured policy, and that the test directory's mTLS policy requires and verifies client certificates; crypto/tls is trusted.",
             "2/C18", ""),
+    "C19": ("decision-table walk (engine E4) of the bind handler's CFG over canonical branch atoms, compared row by row with the reference formula",
+            "Decides the if-and-only-if of the statement for every user set, DN and password (one symbolic user = existential over the list), independent of transport.",
+            "2/C19", ""),
 }
 
 NOT_YET = "rule set designed in DESIGN.md section 2 but not built/armed yet in this round; not claimed until its rules run clean and catch seeded changes"
